@@ -478,7 +478,9 @@ def dynScope (P : Project) : Bool :=
 file, so it may pick the imported symbol and type-check a POU body in the wrong scope. -/
 def rangeAlias (P : Project) : Bool :=
   let ds := (layout P).filter (fun p => p.1.kind == .decl)
-  ds.any (fun a => ds.any (fun b => a.2.file != b.2.file && a.2.start == b.2.start && a.2.stop == b.2.stop &&
+  -- `find_symbol_by_name_range` is asked for the name token of a POU node, so one of the two is a POU
+  let isPou (o : Occ) : Bool := match o.link.bind (declById P) with | some c => isPouKind c.kind | none => false
+  ds.any (fun a => isPou a.1 && ds.any (fun b => a.2.file != b.2.file && a.2.start == b.2.start && a.2.stop == b.2.stop &&
     eqv a.1.name b.1.name))
 
 /-- A struct-field rename searches member accesses of every file by comparing raw TypeIds that belong
